@@ -96,6 +96,15 @@ def run_measured(program, light=False):
 
 
 def impl(case) -> str:
+    if case.get("debug"):
+        from twisted.internet import defer
+
+        old = defer.getDebugging()
+        defer.setDebugging(True)          # trial --debug: must not change the stack use
+        try:
+            return impl({k: v for k, v in case.items() if k != "debug"})
+        finally:
+            defer.setDebugging(old)
     with warnings.catch_warnings():
         warnings.simplefilter("ignore")
         if case.get("n", 0) >= 1000:
@@ -147,13 +156,23 @@ def _inline(case) -> str:
             d = defer.succeed(1)
         ds.append(d)
     E1 = K.exc_class(1)
+    sub = case.get("sub")
+    if sub == "gen":
+        def helper(d):              # a plain generator OBJECT is yielded, not a Deferred
+            x = yield d
+            return x
+    elif sub == "coro":
+        async def helper(d):        # a coroutine OBJECT is yielded
+            return await d
+    else:
+        helper = lambda d: d
     if style == "gen":
         @defer.inlineCallbacks
         def body():
             total = 0
             for d in ds:
                 try:
-                    total += yield d
+                    total += yield helper(d)
                 except E1:
                     total += 1000
             return total
@@ -278,6 +297,7 @@ _BASE: dict = {}
 
 def _baseline(case) -> str:
     key = (case["kind"], case.get("shape"), case.get("cls"), case.get("style"), case["fail"], case.get("lazy"),
+           case.get("sub"), bool(case.get("debug")),
            __import__("os").environ.get("VERIF_REPO", ""))
     if key not in _BASE:
         _BASE[key] = impl({**case, "n": 10})
@@ -287,10 +307,11 @@ def _baseline(case) -> str:
 def _shape(case):
     if case["kind"] == "chain":
         return f"chain-{case['shape']}-{'failure' if case['fail'] else 'success'}" + (
-            "" if case.get("cls", "plain") == "plain" else "-" + case["cls"] + "class")
+            "" if case.get("cls", "plain") == "plain" else "-" + case["cls"] + "class") + ("-debug" if case.get("debug") else "")
     if case["kind"] == "inline":
         return f"inline-{case['style']}-{'failure' if case['fail'] else 'success'}" + (
-            "-after-first-suspension" if case["lazy"] == "first" else "-some-unfired" if case["lazy"] else "")
+            "-after-first-suspension" if case["lazy"] == "first" else "-some-unfired" if case["lazy"] else "") + (
+            f"-yielding-{case['sub']}-objects" if case.get("sub") else "") + ("-debug" if case.get("debug") else "")
     if case["kind"] == "iprog":
         return f"iprog-{case['style']}"
     return "program"
@@ -393,6 +414,20 @@ def gen(rng, tier):
             for cls in ("sub", "mixed"):                    # chains of Deferred-subclass instances, >= 3000 links
                 for n in ([3000] if tier == "quick" else [3000, 30000]):
                     cases.append({"kind": "chain", "shape": shape, "fail": fail, "n": n, "cls": cls})
+    # under Deferred debugging (defer.setDebugging(True)) the stack use must not grow either
+    for shape in SHAPES:
+        for fail in (False, True):
+            for n in ([3000] if tier == "quick" else [3000, 10000]):
+                cases.append({"kind": "chain", "shape": shape, "fail": fail, "n": n, "debug": True})
+    for lazy in (0, "first"):
+        for n in ([2000] if tier == "quick" else [2000, 20000]):
+            cases.append({"kind": "inline", "style": "gen", "fail": False, "lazy": lazy, "n": n, "debug": True})
+    # a generator that yields generator / coroutine OBJECTS which complete synchronously
+    for sub in ("gen", "coro"):
+        for fail in (False, True):
+            for lazy in (0, "first", 7):
+                for n in ([30, 2000] if tier == "quick" else [30, 2000, 20000]):
+                    cases.append({"kind": "inline", "style": "gen", "fail": fail, "lazy": lazy, "n": n, "sub": sub})
     for style in ("gen", "coro"):
         for fail in (False, True):
             for lazy in (0, 7, "first"):
@@ -494,7 +529,7 @@ SPEC = Spec(
     rule="4 chain shapes (outer fired first, inner fired first, innermost pre-fired, innermost paused by the user) x "
          "{success, failure} x {plain Deferreds, instances of a trivial Deferred subclass, alternating}: as kernel programs for 9 lengths <= 34 (quick) / 43 lengths <= 90 (thorough) with the "
          "frame depth of every operation compared with the model, and with 100 ... 10 000 (thorough 100 000) Deferreds "
-         "against the 10-element baseline; inlineCallbacks generators and coroutines awaiting 30 ... 20 000 (100 000) "
+         "against the 10-element baseline; chains of 3 000 (10 000) links also under defer.setDebugging(True); generators yielding generator / coroutine objects that complete synchronously; inlineCallbacks generators and coroutines awaiting 30 ... 20 000 (100 000) "
          "Deferreds, all pre-fired, every 7th fired later, or only the first one unfired (re-entry after a real suspension), last "
          "one failing or not; inline programs (generator / coroutine, 0-9 awaits pre-fired with values or failures or "
          "unfired, recorder, firings in any order incl. repeated ones; families 'all pre-fired' and 'first unfired then n "
